@@ -42,16 +42,20 @@ Record cfg := mkCfg {
   c_nonblock : bool;      (* the completion signal is sent with select/default *)
   c_tmo_removes : bool;   (* the timeout branch of syncCallback removes the entry from `futures` *)
   c_store_nocb : bool;    (* sendAsync stores a future also when there is no callback *)
-  c_pong_removes : bool   (* the heartbeat processor removes the entry carrying the pong's id *)
+  c_pong_removes : bool;  (* the heartbeat processor removes the entry carrying the pong's id *)
+  c_store_first : bool;   (* every delivery site writes MessageFuture.Response BEFORE it signals Done *)
+  c_ids_plain : bool      (* request ids are int32(idGenerator.Inc()) at both send sites: what id_of models *)
 }.
 
 Definition good_cfg (c : cfg) : bool :=
   (1 <=? c_cap c)%nat && c_nonblock c && c_tmo_removes c
-  && negb (c_store_nocb c) && negb (c_pong_removes c).
+  && negb (c_store_nocb c) && negb (c_pong_removes c) && c_store_first c && c_ids_plain c.
 
 (* the tree as pinned, before the repairs *)
-Definition pinned_cfg : cfg := mkCfg 0 false false true true.
-Definition fixed_cfg : cfg := mkCfg 1 true true false false.
+Definition pinned_cfg : cfg := mkCfg 0 false false true true true true.
+Definition fixed_cfg : cfg := mkCfg 1 true true false false true true.
+(* the repaired table, but the payload written after the completion signal *)
+Definition store_after_cfg : cfg := mkCfg 1 true true false false false true.
 
 (* ---- ids: int32(uint32 counter), wrap explicit ---- *)
 Definition two32 : N := 4294967296.
@@ -63,7 +67,7 @@ Definition id_of (n : N) : Z :=
 Inductive wstat :=
 | Waiting
 | DoneOk (body : N)
-| DoneErr (e : N).        (* 1 timeout, 2 write error, 3 no session *)
+| DoneErr (e : N).        (* 1 timeout, 2 write error, 3 no session, 4 returned (nil, nil): no reply, no error *)
 
 Record waiter := mkW {
   w_n : N;                (* the counter value it drew *)
@@ -181,7 +185,12 @@ Definition step (c : cfg) (s : st) (e : ev) : st :=
       match getw k s with
       | Some w =>
           match w_stat w, w_tok w, w_resp w with
-          | Waiting, S t, Some b => setw k (mkW (w_n w) (w_id w) (w_resp w) t (DoneOk b)) s
+          | Waiting, S t, Some b =>
+              (* signal before store: while the delivery that signalled is still between its steps
+                 the waiter may read Response before it is written and returns (nil, nil) *)
+              if negb (c_store_first c) && existsb (Z.eqb (w_id w)) (premoves s)
+              then setw k (mkW (w_n w) (w_id w) (w_resp w) t (DoneErr 4)) s
+              else setw k (mkW (w_n w) (w_id w) (w_resp w) t (DoneOk b)) s
           | _, _, _ => s
           end
       | None => s
